@@ -23,6 +23,7 @@ typedef struct {
 	char cn[12];
 	uint8_t serial[20]; size_t serial_len;
 	int pad;              /* > 0: one more non-critical extension (unknown OID) whose value is an OCTET STRING of that many octets: sizes a certificate */
+	int subj_bad_rdn;     /* 1: an RDN with an attribute type the library does not know (2.5.4.99) IN FRONT of the CN; 2: an organizationName with an embedded NUL in front of the CN */
 	int subj_extra, iss_extra; /* one more RDN (OU=X) behind the CN of the subject / of the issuer: two-RDN names, so that a one-RDN name is a proper prefix of them */
 } cert_spec;
 
@@ -42,6 +43,7 @@ static int make_cert(const cert_spec *s, const SM2_KEY *subject_key, const SM2_K
 	if (s->issuer_mismatch == 2) { static const uint8_t extra[] = { 0x31, 0x0a, 0x30, 0x08, 0x06, 0x03, 0x55, 0x04, 0x0b, 0x13, 0x01, 0x58 }; memcpy(iss + il, extra, sizeof extra); il += sizeof extra; }
 	else if (s->issuer_mismatch == 3) { der_cur c = { iss, il }; size_t keep = 0; int tag; const uint8_t *v; size_t vl; while (c.n) { const uint8_t *st = c.p; if (!der_tlv(&c, &tag, &v, &vl, NULL)) break; if (c.n) keep = (size_t)(c.p - iss); (void)st; } if (keep) il = keep; }
 	else if (s->issuer_mismatch == 4) { iss[il - 1] ^= 0x01; }
+	if (s->subj_bad_rdn) { static const uint8_t bad1[] = { 0x31, 0x0c, 0x30, 0x0a, 0x06, 0x03, 0x55, 0x04, 0x63, 0x13, 0x03, 'b', 'a', 'd' }, bad2[] = { 0x31, 0x0c, 0x30, 0x0a, 0x06, 0x03, 0x55, 0x04, 0x0a, 0x13, 0x03, 'A', 0x00, 'B' }; const uint8_t *b = s->subj_bad_rdn == 1 ? bad1 : bad2; memmove(subj + 14, subj, sl); memcpy(subj, b, 14); sl += 14; }
 	{ static const uint8_t extra[] = { 0x31, 0x0a, 0x30, 0x08, 0x06, 0x03, 0x55, 0x04, 0x0b, 0x13, 0x01, 0x58 }; if (s->subj_extra) { memcpy(subj + sl, extra, sizeof extra); sl += sizeof extra; } if (s->iss_extra) { memcpy(iss + il, extra, sizeof extra); il += sizeof extra; } }
 	if (s->bc && x509_exts_add_basic_constraints(exts, &el, sizeof exts, X509_critical, s->bc == 2, s->pathlen) != 1) return -2;
 	if (s->ku >= 0 && x509_exts_add_key_usage(exts, &el, sizeof exts, s->ku_crit ? X509_critical : X509_non_critical, s->ku) != 1) return -3;
